@@ -3,7 +3,7 @@
 # (model, proofs, property theorems, extraction), the OCaml driver, the Rust harness (debug+release).
 set -e
 cd "$(dirname "$0")"
-export CARGO_NET_OFFLINE=true
+export CARGO_NET_OFFLINE=true CARGO_TARGET_DIR="$(pwd)/.cache/target"
 mkdir -p .cache/ocaml .cache/target evidence replays
 ( cd coq && coq_makefile -f _CoqProject -o Makefile >/dev/null && timeout 3300 make -j16 )
 cp coq/model.ml coq/model.mli ocaml/driver.ml .cache/ocaml/
